@@ -1,23 +1,62 @@
 /-
 C17 — grid search expands a query into exactly the Cartesian product of its options.
 
-Model: `Model/MultiSet.lean` (the mixed-radix counter of `util/multiset.rs`, partial as in the code),
-`Model/GridSearch.lean` (`GridSearchPlugin::process` as the code, `processO`, and as the total function
-it computes, `process`; `json_array_op` / flatten / `apply_input_plugins`).  Both are tied to the Rust
-code by the correspondence run (`harness/src/c17.rs`), key order included.
+Model: `Model/MultiSet.lean` (the mixed-radix counter of `util/multiset.rs`; total since the repair
+e2d1252/ae1b946, every indexing explicit, the run fuelled), `Model/GridSearch.lean`
+(`GridSearchPlugin::process` as the code, `processO`, and as the total function it computes, `process`;
+every function of `input_plugin_ops.rs`; `apply_input_plugins`; the builder from configuration).  All
+are tied to the Rust code by the correspondence run (`harness/src/c17.rs`), key order included.
 
-Reading of the property.  "One for each combination and none twice" is proved about *index
-combinations*: the generated list is the image of a duplicate-free, complete list of index vectors
-(`grid_one_per_combination`).  Whether two different combinations can yield *equal queries* depends on
-the options the user wrote: options that write the same key override one another (later axis wins,
-`output_last_writer_wins`), so `{"a":[{"x":1},{"x":2}],"b":[{"x":3}]}` yields the same query twice
-(`colliding_options_yield_equal_queries`).  This is the documented merge semantics, not a defect; under
-the natural side condition (scalar axes with pairwise different options) the queries themselves are
-pairwise different (`grid_outputs_distinct_scalar_axes`).  Likewise "keeps all other fields" holds for
-the fields no chosen option writes (`output_keeps_other_fields`).
+**Which reading of "one for each combination and none twice" is proved.**  A *combination* is an index
+tuple (one option index per axis).  Proved, for every query that passes the guards
+(`grid_one_per_combination`, `grid_count`): the generated list is the image, in counter order, of a list
+of index tuples that has no repetition and contains exactly the in-range tuples — every combination is
+served exactly once, none is served twice, and there are exactly `n₁ × … × n_m` queries.  That is the
+whole of the clause, and it holds without restriction (scalars, objects, mixtures, any keys).
 
-JSON objects are association lists; `serde_json` maps have unique keys, which is the hypothesis
-`(kvs.map (·.1)).Nodup` where it is needed (only for the top level of the query).
+The stronger *value-level* reading — "no two generated queries are equal" — is **not** what the
+property can mean and is false of the code (and of any code that satisfies the count clause): the
+options `1` and `{"x":1}` of the axis `x` are different JSON values but spell the same assignment, so
+`{"grid_search":{"x":[1,{"x":1}]}}` has two combinations with one and the same query `{"x":1}`; emitting
+it once would break "exactly n₁ × … × n_m queries, one for each combination".  Equal queries arise
+exactly when the user's options are not observably different after the merge:
+* one axis, pairwise different options, an object option hitting its own axis name
+  (`grid_outputs_distinct_counterexample`);
+* options of different axes writing the same key, the later axis overriding
+  (`grid_outputs_distinct_counterexample_across_axes`);
+* an object option repeating a value the original query already holds
+  (`grid_outputs_distinct_counterexample_original_field`).
+All three are reproduced against the real plugin by the corpus of `harness/src/c17.rs`
+(`corpus_equal_queries`); the oracle there checks the index-level reading (the generated queries are, as
+a multiset, exactly one per index tuple), which they satisfy, so no finding is recorded.
+What *is* proved at value level is `grid_outputs_distinct_partial`: when different axes write different
+keys and the options of each axis are observably different on top of the original query, different
+combinations give queries that differ **as maps** (hence also as `serde_json` values, whose equality
+ignores key order); the condition on the options is also necessary
+(`observably_equal_options_yield_equal_queries`).  `grid_outputs_distinct_scalar_axes_partial` is the
+instance "every option a non-object, options of an axis pairwise different".
+
+Likewise "keeps all other fields" holds for the fields no chosen option writes
+(`output_keeps_other_fields`); the complete statement is `output_last_writer_wins`.
+
+Hypotheses that are invariants of the *input* (`serde_json::Map` has unique keys), assumed where needed:
+top level of the query (`output_keeps_other_fields`, `output_has_no_grid_key`, `output_keys_unique`,
+`repeated_grid_search_is_idempotent`), an object option (`output_object_merged`), the grid section
+(`grid_outputs_distinct_scalar_axes_partial`).  That the generated queries have unique keys again is
+`output_keys_unique`.
+
+Modelled rather than verified (outside every theorem):
+* `serde_json::to_string(section)` failing (`JsonError` arm) — cannot fail for a `Value`; the arm is not
+  in the model;
+* memory: the plugin collects all `Πn` queries eagerly; exhaustion for astronomically large products is
+  not modelled;
+* `mapOp` (the loop of `json_array_op`) takes the plugin as a total `Except` function that leaves the
+  query untouched when it fails — true of grid search (`process_never_panics_or_diverges`, it only swaps
+  at the very end), an assumption for other plugins;
+* error *messages* are not modelled (`errorText`); the harness checks their shape independently;
+* `serde_json` itself (`preserve_order`: `remove` = `swap_remove`, `value[k] = v` keeps the slot of an
+  existing key) is modelled by `swapRemoveKv` / `insertKv` and evidenced by the textual correspondence
+  run only.
 -/
 import Compass.Proofs.GridSearch
 
@@ -303,43 +342,221 @@ example : lookup (overlay (swapRemoveKv exQuery gridKey) (choice (axes exSection
     = none :=
   output_has_no_grid_key exQuery_is_grid_query (by decide +kernel) _
 
-/-- Options of different axes that write the same key override one another, so two *different*
-combinations can produce *equal* queries: for `{"a":[{"x":1},{"x":2}],"b":[{"x":3}]}` both give
-`{"x":3}`.  (Merge semantics of the overlay, recorded as a reading of "none twice" — see the header.) -/
-theorem colliding_options_yield_equal_queries :
-    let ax : List (String × List Json) :=
-      [("a", [.obj [("x", .num "1" 0)], .obj [("x", .num "2" 0)]]), ("b", [.obj [("x", .num "3" 0)]])]
-    inRange (ax.map (·.2.length)) [0, 0] = true ∧ inRange (ax.map (·.2.length)) [1, 0] = true ∧
-    overlay [] (choice ax [0, 0]) = overlay [] (choice ax [1, 0]) :=
-  ⟨by decide +kernel, by decide +kernel, by rfl⟩
+/-- a generated query is a well-formed object again: its keys are unique -/
+theorem output_keys_unique (kvs : List (String × Json)) (hn : (kvs.map (·.1)).Nodup)
+    (ch : List (String × Json)) :
+    ((overlay (swapRemoveKv kvs gridKey) ch).map (·.1)).Nodup := by
+  rw [overlay_eq_mergeKv]
+  exact nodup_keys_mergeKv _ _ (nodup_keys_swapRemoveKv kvs hn gridKey)
 
-/-- **None twice, as values**: when every option is a scalar (non-object) and the options of each
-axis are pairwise different, the generated queries themselves are pairwise different.  (With object
-options this needs disjoint key sets; with colliding keys it is false, see above.) -/
-theorem grid_outputs_distinct_scalar_axes {q : Json} {kvs sec : List (String × Json)}
+-- the two clause theorems instantiated on the real choice list of the example query, combination
+-- [1, 1]: `x = 2` is a scalar under its field's name, `w` comes from the merged object option
+example : lookup (overlay (swapRemoveKv exQuery gridKey) (choice (axes exSection) [1, 1])) "x"
+    = some (.num "2" 0) := by
+  have h : choice (axes exSection) [1, 1]
+      = [] ++ ("x", Json.num "2" 0) :: [("y", .obj [("a", .null), ("w", .bool true)])] := by rfl
+  rw [h]
+  exact output_scalar_under_field_name _ [] _ "x" _ rfl (by decide +kernel)
+example : lookup (overlay (swapRemoveKv exQuery gridKey) (choice (axes exSection) [1, 1])) "w"
+    = some (.bool true) := by
+  have h : choice (axes exSection) [1, 1]
+      = [("x", Json.num "2" 0)] ++ ("y", .obj [("a", .null), ("w", .bool true)]) :: [] := by rfl
+  rw [h]
+  exact output_object_merged _ _ [] "y" _ (by decide +kernel) "w" _ (by simp) (by simp [writes])
+example : ((overlay (swapRemoveKv exQuery gridKey) (choice (axes exSection) [1, 1])).map (·.1)).Nodup :=
+  output_keys_unique exQuery (by decide +kernel) _
+
+/-! ### "none twice" at the level of values: what holds, what does not -/
+
+/-- the witnesses as real inputs of `process` -/
+def dupSingleAxisSection : List (String × Json) := [("x", .arr [.num "1" 0, .obj [("x", .num "1" 0)]])]
+def dupSingleAxisQuery : List (String × Json) := [("grid_search", .obj dupSingleAxisSection)]
+def dupAcrossAxesSection : List (String × Json) :=
+  [("a", .arr [.obj [("x", .num "1" 0)], .obj [("x", .num "2" 0)]]), ("b", .arr [.obj [("x", .num "3" 0)]])]
+def dupAcrossAxesQuery : List (String × Json) := [("grid_search", .obj dupAcrossAxesSection)]
+def dupOriginalFieldSection : List (String × Json) :=
+  [("a", .arr [.obj [("p", .num "1" 0)], .obj [("p", .num "1" 0), ("q", .num "2" 0)]])]
+def dupOriginalFieldQuery : List (String × Json) :=
+  [("q", .num "2" 0), ("grid_search", .obj dupOriginalFieldSection)]
+
+/-- **The value-level statement "no two generated queries are equal" is false**, already for ONE axis
+whose options are pairwise different JSON values: `{"grid_search":{"x":[1,{"x":1}]}}` passes both
+guards and the plugin returns `[{"x":1},{"x":1}]` — the scalar `1` goes under the field's name `x`, the
+object `{"x":1}` is merged, both spell `x = 1`.  (Two combinations, two queries: the index-level
+property holds, `grid_one_per_combination`.) -/
+theorem grid_outputs_distinct_counterexample :
+    GridQuery (.obj dupSingleAxisQuery) dupSingleAxisQuery dupSingleAxisSection ∧
+    (∀ a ∈ axes dupSingleAxisSection, a.2.Nodup) ∧
+    process (.obj dupSingleAxisQuery)
+      = .ok (.arr [.obj [("x", .num "1" 0)], .obj [("x", .num "1" 0)]]) := by
+  have hg : GridQuery (.obj dupSingleAxisQuery) dupSingleAxisQuery dupSingleAxisSection :=
+    ⟨rfl, by rfl, by decide +kernel, by decide +kernel⟩
+  refine ⟨hg, by simp [axes, dupSingleAxisSection], ?_⟩
+  rw [grid_expansion hg]; rfl
+
+/-- … for options of different axes that write the same key (the later axis overrides):
+`{"grid_search":{"a":[{"x":1},{"x":2}],"b":[{"x":3}]}}` gives `[{"x":3},{"x":3}]` … -/
+theorem grid_outputs_distinct_counterexample_across_axes :
+    GridQuery (.obj dupAcrossAxesQuery) dupAcrossAxesQuery dupAcrossAxesSection ∧
+    (∀ a ∈ axes dupAcrossAxesSection, a.2.Nodup) ∧
+    process (.obj dupAcrossAxesQuery)
+      = .ok (.arr [.obj [("x", .num "3" 0)], .obj [("x", .num "3" 0)]]) := by
+  have hg : GridQuery (.obj dupAcrossAxesQuery) dupAcrossAxesQuery dupAcrossAxesSection :=
+    ⟨rfl, by rfl, by decide +kernel, by decide +kernel⟩
+  refine ⟨hg, by simp [axes, dupAcrossAxesSection], ?_⟩
+  rw [grid_expansion hg]; rfl
+
+/-- … and for object options with different key sets, no key shared with another axis, when the
+original query already holds the value one of them adds:
+`{"q":2,"grid_search":{"a":[{"p":1},{"p":1,"q":2}]}}` gives `[{"q":2,"p":1},{"q":2,"p":1}]`
+("disjoint key sets" alone is therefore not a sufficient condition). -/
+theorem grid_outputs_distinct_counterexample_original_field :
+    GridQuery (.obj dupOriginalFieldQuery) dupOriginalFieldQuery dupOriginalFieldSection ∧
+    (∀ a ∈ axes dupOriginalFieldSection, a.2.Nodup) ∧
+    process (.obj dupOriginalFieldQuery)
+      = .ok (.arr [.obj [("q", .num "2" 0), ("p", .num "1" 0)],
+                   .obj [("q", .num "2" 0), ("p", .num "1" 0)]]) := by
+  have hg : GridQuery (.obj dupOriginalFieldQuery) dupOriginalFieldQuery dupOriginalFieldSection :=
+    ⟨rfl, by rfl, by decide +kernel, by decide +kernel⟩
+  refine ⟨hg, by simp [axes, dupOriginalFieldSection], ?_⟩
+  rw [grid_expansion hg]; rfl
+
+/-- **None twice, as values — the part that holds** (`_partial`: the full statement "for every grid
+query whose options are pairwise different per axis, the generated queries are pairwise different" is
+false, see the three `grid_outputs_distinct_counterexample*` above).  Scalars, objects and mixtures:
+if different axes never write the same key (`AxesDisjoint`: an axis writes its own name for a
+non-object option and the option's keys for an object option) and, on each axis, two options that are
+observably the same on top of the query-minus-grid-key are the same option
+(`OptionsObservablyDistinct`), then two different combinations give queries that differ **as maps** —
+some key holds different values — so they are different for `serde_json` (key order ignored) and a
+fortiori as ordered objects (`Nodup`).  Excluded, exactly: an axis with two observably equal options
+(then equal queries do arise, `observably_equal_options_yield_equal_queries`), and axes sharing a
+written key (then they may or may not, depending on which axis comes last). -/
+theorem grid_outputs_distinct_partial {q : Json} {kvs sec : List (String × Json)}
+    (h : GridQuery q kvs sec) (hdis : AxesDisjoint (axes sec))
+    (hobs : ∀ a ∈ axes sec, OptionsObservablyDistinct (swapRemoveKv kvs gridKey) a) :
+    (∀ c c', inRange ((axes sec).map (·.2.length)) c = true →
+      inRange ((axes sec).map (·.2.length)) c' = true → c ≠ c' →
+      ∃ k, lookup (overlay (swapRemoveKv kvs gridKey) (choice (axes sec) c)) k
+         ≠ lookup (overlay (swapRemoveKv kvs gridKey) (choice (axes sec) c')) k) ∧
+    ∃ outs, process q = .ok (.arr outs) ∧ outs.Nodup := by
+  have key : ∀ c c', inRange ((axes sec).map (·.2.length)) c = true →
+      inRange ((axes sec).map (·.2.length)) c' = true →
+      (∀ k, lookup (overlay (swapRemoveKv kvs gridKey) (choice (axes sec) c)) k
+          = lookup (overlay (swapRemoveKv kvs gridKey) (choice (axes sec) c')) k) → c = c' :=
+    fun c c' hc hc' he => choice_inj_of_observable _ _ c c' hdis hobs hc hc' he
+  refine ⟨?_, _, grid_expansion h, ?_⟩
+  · intro c c' hc hc' hne
+    by_contra hcon
+    exact hne (key c c' hc hc' (fun k => by
+      by_contra hk; exact hcon ⟨k, hk⟩))
+  · unfold expand
+    refine List.Nodup.map_on ?_ (combos_nodup _)
+    intro c hc c' hc' heq
+    have e : instanceKv (swapRemoveKv kvs gridKey) (axes sec) c
+        = instanceKv (swapRemoveKv kvs gridKey) (axes sec) c' := Json.obj.inj heq
+    exact key c c' ((mem_combos _ _).mp hc) ((mem_combos _ _).mp hc') (fun k => by
+      simp only [instanceKv] at e; rw [e])
+
+/-- the condition on the options is necessary: if two options of an axis are observably the same
+on top of `initial` and no earlier axis writes a key of theirs, the two queries are the same map,
+whatever the other axes choose -/
+theorem observably_equal_options_yield_equal_queries (initial pre post : List (String × Json))
+    (key : String) (o o' : Json)
+    (hobs : ∀ k, observe initial key o k = observe initial key o' k)
+    (hpre : ∀ k, k ∈ (writesOf key o).map (·.1) ∨ k ∈ (writesOf key o').map (·.1) →
+      k ∉ (writes pre).map (·.1)) (k : String) :
+    lookup (overlay initial (pre ++ (key, o) :: post)) k
+      = lookup (overlay initial (pre ++ (key, o') :: post)) k :=
+  same_observation_same_query initial pre post key o o' hobs hpre k
+
+/-- the scalar instance (`_partial` for the same reason): every option a non-object, the options of
+each axis pairwise different, the section's keys unique (a `serde_json::Map` invariant).  Then the
+hypotheses of `grid_outputs_distinct_partial` hold, so the queries differ as maps and as ordered
+objects.  Excluded: every grid with an object option anywhere. -/
+theorem grid_outputs_distinct_scalar_axes_partial {q : Json} {kvs sec : List (String × Json)}
     (h : GridQuery q kvs sec) (hk : (sec.map (·.1)).Nodup)
     (hs : ∀ a ∈ axes sec, ∀ v ∈ a.2, v.isObject = false) (ho : ∀ a ∈ axes sec, a.2.Nodup) :
+    (∀ c c', inRange ((axes sec).map (·.2.length)) c = true →
+      inRange ((axes sec).map (·.2.length)) c' = true → c ≠ c' →
+      ∃ k, lookup (overlay (swapRemoveKv kvs gridKey) (choice (axes sec) c)) k
+         ≠ lookup (overlay (swapRemoveKv kvs gridKey) (choice (axes sec) c')) k) ∧
     ∃ outs, process q = .ok (.arr outs) ∧ outs.Nodup := by
-  refine ⟨_, grid_expansion h, ?_⟩
-  unfold expand
-  refine List.Nodup.map_on ?_ (combos_nodup _)
-  intro c hc c' hc' heq
-  exact overlay_inj_scalar _ _ ((axes_keys_sublist sec).nodup hk) hs ho c c'
-    ((mem_combos _ _).mp hc) ((mem_combos _ _).mp hc') (Json.obj.inj heq)
+  have hw : ∀ a ∈ axes sec, ∀ v ∈ a.2, writesOf a.1 v = [(a.1, v)] := by
+    intro a ha v hv
+    have := hs a ha v hv
+    cases v <;> simp_all [writesOf, Json.isObject]
+  have hkeys : ∀ a ∈ axes sec, ∀ k, k ∈ axisKeys a → k = a.1 := by
+    intro a ha k hkm
+    obtain ⟨v, hv, hkv⟩ := List.mem_flatMap.mp hkm
+    rw [hw a ha v hv] at hkv
+    simpa using hkv
+  have hnd : ((axes sec).map (·.1)).Nodup := (axes_keys_sublist sec).nodup hk
+  refine grid_outputs_distinct_partial h ?_ ?_
+  · -- different axes have different names, and a scalar axis writes only its name
+    have hp : (axes sec).Pairwise (fun a b => a.1 ≠ b.1) := by
+      have := List.pairwise_map.mp hnd
+      exact this
+    refine List.Pairwise.imp_of_mem ?_ hp
+    intro a b ha hb hab k hka hkb
+    exact hab ((hkeys a ha k hka).symm.trans (hkeys b hb k hkb))
+  · intro a ha j j' hj hj' hall
+    have e := hall a.1
+    simp only [observe, hw a ha _ (List.getElem_mem hj), hw a ha _ (List.getElem_mem hj'),
+      List.reverse_singleton, lookup_cons, if_true, Option.some.injEq] at e
+    exact (List.Nodup.getElem_inj_iff (ho a ha)).mp e
 
 def exScalarSection : List (String × Json) :=
   [("x", .arr [.num "1" 0, .num "2" 0]), ("y", .arr [.str "p", .str "q", .str "r"])]
 def exScalarQuery : List (String × Json) := [("k", .null), ("grid_search", .obj exScalarSection)]
 
+-- non-vacuity, scalar instance: a 2 × 3 scalar grid
 example : ∃ outs, process (.obj exScalarQuery) = .ok (.arr outs) ∧ outs.Nodup ∧ outs.length = 6 := by
   have hg : GridQuery (.obj exScalarQuery) exScalarQuery exScalarSection :=
     ⟨rfl, by rfl, by decide +kernel, by decide +kernel⟩
-  obtain ⟨outs, h1, h2⟩ := grid_outputs_distinct_scalar_axes hg (by decide +kernel)
+  obtain ⟨_, outs, h1, h2⟩ := grid_outputs_distinct_scalar_axes_partial hg (by decide +kernel)
     (by simp [axes, exScalarSection, Json.isObject]) (by simp [axes, exScalarSection])
   obtain ⟨outs', h3, h4⟩ := grid_count hg
   rw [h1] at h3
   cases h3
   exact ⟨outs, h1, h2, by rw [h4]; decide +kernel⟩
+
+/-- the repository's own `test_grid_search_using_objects`: a scalar axis and an axis of objects -/
+def exObjectSection : List (String × Json) :=
+  [("a", .arr [.num "1" 0, .num "2" 0]),
+   ("ignored_inner_key", .arr [.obj [("x", .num "0" 0), ("y", .num "0" 0)],
+                               .obj [("x", .num "1" 0), ("y", .num "1" 0)]])]
+def exObjectQuery : List (String × Json) :=
+  [("ignored_key", .str "ignored_value"), ("grid_search", .obj exObjectSection)]
+
+-- non-vacuity, general theorem: object options (outside the scalar instance) satisfy its hypotheses
+example : ∃ outs, process (.obj exObjectQuery) = .ok (.arr outs) ∧ outs.Nodup := by
+  have hg : GridQuery (.obj exObjectQuery) exObjectQuery exObjectSection :=
+    ⟨rfl, by rfl, by decide +kernel, by decide +kernel⟩
+  refine (grid_outputs_distinct_partial hg ?_ ?_).2
+  · -- axis `a` writes `a`; axis `ignored_inner_key` writes `x`, `y`
+    simp only [AxesDisjoint, axes, exObjectSection, List.pairwise_cons, List.mem_singleton,
+      List.not_mem_nil, forall_eq, List.Pairwise.nil, and_true, false_imp_iff, implies_true]
+    decide +kernel
+  · intro a ha
+    simp only [axes, exObjectSection, List.mem_cons, List.not_mem_nil, or_false] at ha
+    rcases ha with rfl | rfl
+    · -- options 1, 2 differ under `a`
+      intro j j' hj hj' hall
+      have e := hall "a"
+      simp only [List.length_cons, List.length_nil] at hj hj'
+      have : j = 0 ∨ j = 1 := by omega
+      have : j' = 0 ∨ j' = 1 := by omega
+      rcases ‹j = 0 ∨ j = 1› with rfl | rfl <;> rcases ‹j' = 0 ∨ j' = 1› with rfl | rfl <;>
+        first | rfl | (exfalso; simp [observe, writesOf, lookup_cons] at e)
+    · -- the two objects differ under `x`
+      intro j j' hj hj' hall
+      have e := hall "x"
+      simp only [List.length_cons, List.length_nil] at hj hj'
+      have : j = 0 ∨ j = 1 := by omega
+      have : j' = 0 ∨ j' = 1 := by omega
+      rcases ‹j = 0 ∨ j = 1› with rfl | rfl <;> rcases ‹j' = 0 ∨ j' = 1› with rfl | rfl <;>
+        first | rfl | (exfalso; simp [observe, writesOf, lookup_cons] at e)
 
 /-! ### key order (the correspondence run compares it textually) -/
 
@@ -385,6 +602,30 @@ theorem guard_rejects_text (q s : Json) (hs : q.get? gridKey = some s)
     (ht : gridKey.toList <:+: s.toCompact.toList) : process q = .error .recursion := by
   have : recurses s = true := strContains_of_infix _ _ ht
   simp [process, plan, hs, this]
+
+/-- … and only then: the recursion error is given **exactly** when the text occurs (`Json.strContains`
+is proved to be the substring test, both directions) -/
+theorem guard_rejects_text_iff (q s : Json) (hs : q.get? gridKey = some s) :
+    process q = .error .recursion ↔ gridKey.toList <:+: s.toCompact.toList := by
+  constructor
+  · intro h
+    by_contra hn
+    have hr : recurses s = false := by
+      cases hrec : recurses s with
+      | false => rfl
+      | true => exact absurd ((strContains_iff_infix _ _).mp hrec) hn
+    cases s with
+    | obj sec =>
+      by_cases hd : degenerate (axes sec) = true
+      · simp [process, plan, hs, hr, hd] at h
+      · cases q with
+        | obj kvs =>
+          have hd' : degenerate (axes sec) = false := Bool.eq_false_iff.mpr hd
+          rw [grid_expansion ⟨rfl, by simpa [Json.get?] using hs, hr, hd'⟩] at h
+          cases h
+        | _ => simp [Json.get?] at hs
+    | _ => simp [process, plan, hs, hr] at h
+  · exact guard_rejects_text q s hs
 
 /-- … in particular whenever any field of the section, at top level, is a string mentioning it -/
 theorem guard_rejects_string_value (kvs sec : List (String × Json))
@@ -555,18 +796,20 @@ example :
 /-! ### `input_plugin_ops.rs`, every function on every value -/
 
 /-- an error response is exactly `{"request": …, "error": <text>}`, in that order, and carries the
-request it is about -/
+request it is about.  (Holds by definition of the model `packageError`; that the real responses have
+this shape is checked by the harness, oracle key `response/shape`.) -/
 theorem error_response_shape (q : Json) :
     packageError q = .obj [("request", q), ("error", errorText)] ∧
     (packageError q).get? "request" = some q := ⟨rfl, rfl⟩
 
 /-- the invariant error carries the query state when the caller still has it, else the placeholder
-`{"error": "unable to display query"}`; the sub-section only goes into the message -/
+`{"error": "unable to display query"}`; the sub-section only goes into the message.  (A description of
+the model function by cases, not a property derived from anything.) -/
 theorem invariant_error_request (q sub : Option Json) :
     packageInvariantError q sub = packageError (q.getD noRequest) := by
   cases q <;> rfl
 
-/-- every error of the pipeline answers with the request it names -/
+/-- every error of the pipeline answers with the request it names (by definition of `PipeErr.response`) -/
 theorem pipe_error_response_carries_request {ε : Type} (e : PipeErr ε) :
     e.response.get? "request" = some e.request := rfl
 
@@ -623,7 +866,8 @@ theorem state_op_first_failure {ε : Type} (op : Json → Except ε Json) (pre p
 
 /-! ### plugins from configuration (`GridSearchBuilder`, `build_input_plugins`) -/
 
-/-- the builder ignores its parameters and cannot fail -/
+/-- the builder ignores its parameters and cannot fail (definitional: the model function is the
+constant; the real builder is run on arbitrary parameters by the harness, key `builder/behaviour`) -/
 theorem builder_ignores_parameters {ε : Type} (parameters : Json) :
     gridSearchBuilder (ε := ε) parameters = .ok process := rfl
 
